@@ -350,7 +350,7 @@ def _split_addrange(key, local, remote, path, item_strategy):
                 vl = [d.value]
             else:
                 vl = d.valuelist
-            decisions.onesided(path, None, [op_addrange(key, vl)])
+            decisions.onesided(path, [], [op_addrange(key, vl)])
             offset += len(vl)
 
         elif d.op == DiffOp.PATCH:
